@@ -25,7 +25,7 @@ var subOf = map[string][]string{
 	"10.1.2.0/24":   {"10.1.2.3/32", "10.1.2.0/25", "10.1.2.128/25"},
 	"172.16.0.0/12": {"172.16.0.0/16", "172.31.255.255/32"},
 }
-var allKinds = []string{"Deployment", "Pod", "StatefulSet", "DaemonSet", "ReplicaSet", "Job", "CronJob", "ReplicationController", "Owned:ReplicaSet", "Owned:StatefulSet"}
+var allKinds = []string{"Deployment", "Pod", "StatefulSet", "DaemonSet", "ReplicaSet", "Job", "CronJob", "ReplicationController", "Owned:ReplicaSet", "Owned:StatefulSet", "Owned2:ReplicaSet"}
 
 // GenCfg selects the sub-generator ("NP-only world", "admin world", ...).
 type GenCfg struct {
@@ -313,6 +313,13 @@ func genNetPol(t *rapid.T, l string, ns string, cfg *GenCfg) NetPol {
 	ne := rapid.IntRange(0, 3).Draw(t, l+"ne")
 	for j := 0; j < ne; j++ {
 		p.Egress = append(p.Egress, genRule(t, fmt.Sprintf("%seg%d", l, j), true, cfg))
+	}
+	// a direction without rules may be written as an explicit empty list
+	if ni == 0 {
+		p.EmptyIngress = rapid.IntRange(0, 2).Draw(t, l+"emptyin") == 0
+	}
+	if ne == 0 {
+		p.EmptyEgress = rapid.IntRange(0, 2).Draw(t, l+"emptyeg") == 0
 	}
 	return p
 }
